@@ -954,6 +954,54 @@ fn exec_rayon(sc: &Scenario) -> Report {
     finish_report(res, out)
 }
 
+/// Auxiliary smoke run on the REAL rayon pool (shims in passthrough mode: the worker threads are
+/// not simulated). Only schedule-independent facts are checked (result, final position), so it
+/// cannot alarm spuriously; it does not replay exactly and is labelled so in the evidence.
+fn exec_rayon_real(sc: &Scenario) -> Report {
+    use rayon::prelude::*;
+    let mut r = Report::default();
+    let n = sc.c("n_items") as usize;
+    let threads = sc.c("pool_threads").clamp(1, 8) as usize;
+    let pool = match rayon::ThreadPoolBuilder::new().num_threads(threads).build() {
+        Ok(p) => p,
+        Err(e) => {
+            r.harness_error = Some(format!("cannot build a rayon pool: {e}"));
+            return r;
+        }
+    };
+    let items: Vec<u64> = (0..n as u64).collect();
+    let pb = ProgressBar::with_draw_target(Some(n as u64), ProgressDrawTarget::hidden()).with_finish(finish_kind(sc.c("on_finish"), "fin"));
+    let path = sc.c("path") % 4;
+    let expect_sum: u64 = items.iter().sum();
+    let res = call(|| {
+        pool.install(|| match path {
+            0 => items.par_iter().progress_with(pb.clone()).map(|x| *x).sum::<u64>(),
+            1 => items.par_iter().progress_with(pb.clone()).enumerate().map(|(_, x)| *x).sum::<u64>(),
+            2 => items.par_iter().progress_with(pb.clone()).filter(|x| **x != u64::MAX).map(|x| *x).sum::<u64>(),
+            _ => items.par_iter().progress_with(pb.clone()).zip(items.par_iter()).map(|(a, _)| *a).sum::<u64>(),
+        })
+    });
+    match res {
+        Err(p) => r.violate("C17.no_panic", format!("real rayon path {path} panicked: {p}")),
+        Ok(sum) => {
+            if sum != expect_sum {
+                r.violate("C17.transparency", format!("real rayon path {path}: sum of the items {sum}, expected {expect_sum}"));
+            }
+            let p = pb.position();
+            if p != n as u64 {
+                r.violate(
+                    "C17.rayon_position",
+                    format!("real rayon pool ({threads} threads), path {}: position() = {p} after completion, items transferred = {n}", ["map", "enumerate (producer)", "filter (unindexed)", "zip (producer)"][path as usize]),
+                );
+            }
+        }
+    }
+    r.probe("rayon_real_pool_runs");
+    r.nontrivial = n >= 2;
+    r.sub_runs = 1;
+    r
+}
+
 impl Check for C17 {
     fn id(&self) -> &'static str {
         "C17"
@@ -963,7 +1011,7 @@ impl Check for C17 {
     }
     fn assumptions(&self) -> Vec<String> {
         vec![
-            "the rayon thread pool is replaced by a seeded split driver calling the real Producer/Consumer/Folder/UnindexedConsumer wrappers; leaves fold their whole iterator like rayon's bridge does".into(),
+            "the rayon thread pool is replaced by a seeded split driver calling the real Producer/Consumer/Folder/UnindexedConsumer wrappers; leaves fold their whole iterator like rayon's bridge does; in addition about 1 run in 150 (mode rayon_real) uses the REAL rayon pool with the shims in passthrough mode and checks only schedule-independent facts (result, final position) - those runs do not replay exactly and cannot alarm spuriously".into(),
             "futures are polled by hand with a counting waker (no tokio runtime)".into(),
             "Iterator::size_hint forwarding and position tracking of tokio AsyncSeek are not demanded (not stated)".into(),
         ]
@@ -1001,6 +1049,15 @@ impl Check for C17 {
         v
     }
     fn gen(&self, rng: &mut Rng, tier: Tier, _index: u64) -> Scenario {
+        if rng.chance(1, 150) {
+            let mut sc = Scenario::new("C17", "rayon_real", rng.next_u64());
+            sc.set("n_items", *rng.pick(&[0, 1, 2, 7, 100, 1000, 5000]));
+            sc.set("pool_threads", rng.range(1, 8));
+            sc.set("path", rng.below(4));
+            sc.set("on_finish", rng.below(5));
+            sc.threads = vec![vec![]];
+            return sc;
+        }
         let mode = ["io", "aio", "stream", "iter", "rayon"][rng.weighted(&[6, 5, 2, 3, 4])];
         let mut sc = Scenario::new("C17", mode, rng.next_u64());
         sc.set("visible", rng.chance(1, 5) as u64);
@@ -1098,6 +1155,7 @@ impl Check for C17 {
             "io" => exec_io(sc),
             "aio" => exec_aio(sc),
             "stream" | "iter" => exec_iter(sc),
+            "rayon_real" => exec_rayon_real(sc),
             _ => exec_rayon(sc),
         }
     }
